@@ -54,7 +54,10 @@ theorem PInv.wakeWaiters {w : World} (hp : PInv ex fr w) (p : Pid) (sig : Int) :
            fb := fun x hxx hx => by rw [hpa, hea]; rw [(haw x).2.2] at hx; exact hp.fb x hxx hx,
            w1 := fun x q hq hx => by rw [(haw q).1]; exact hp.w1 x q (hwt x q hq).1 hx,
            wn := ?_, e1 := fun h l q hm hq hx => by rw [(haw q).1]; exact hp.e1 h l q hm hq hx,
-           en := hp.en, op := ?_, oe := ?_, up := ?_, ue := ?_, oh := ?_ }
+           en := hp.en, op := ?_, oe := ?_, up := ?_, ue := ?_, oh := ?_,
+           es := fun h l hm => by
+             obtain ⟨e2, he2, hk2⟩ := Event.mem_keys.1 (hp.es h l hm)
+             exact Event.mem_keys.2 ⟨e2, by simp only [pushAll_pending, modProc_ev]; exact List.mem_append_right _ he2, hk2⟩ }
   · intro x; rw [hpr]; split
     · simp
     · exact hp.wn x
@@ -159,7 +162,7 @@ theorem PInv.cmd_waitProc {w : World} (hp : PInv ex fr w) {p q : Pid} (hfr : fr 
   have hnop : ∀ a, Await.proc a ∉ (w.proc p).awaits := by
     intro a ha; rw [mem_awaits_proc, hnil.1] at ha; cases ha
   refine { ei := hp.ei, ap := ?_, ae := ?_, ar := ?_, fb := ?_, w1 := ?_, wn := ?_, e1 := ?_, en := hp.en,
-           op := ?_, oe := ?_, up := hp.up, ue := hp.ue, oh := ?_ }
+           op := ?_, oe := ?_, up := hp.up, ue := hp.ue, oh := ?_, es := hp.es }
   · intro x; rw [hpa]
     by_cases hx : x = p
     · subst hx; right; exact ⟨q, setFrame_self _ _ _, by simp⟩
@@ -247,7 +250,7 @@ theorem waitEventWorld_waitersOf (w : World) (p : Pid) (h h' : Nat) :
 
 /-- `wait_event h` on a scheduled event by a running process that is registered nowhere -/
 theorem PInv.cmd_waitEvent {w : World} (hp : PInv ex fr w) {p : Pid} {h : Nat} (hfr : fr p = none)
-    (hr : (w.proc p).status = .running) (hxp : ¬ ex p) :
+    (hr : (w.proc p).status = .running) (hxp : ¬ ex p) (hs : h ∈ keys w.ev.pending) :
     PInv ex (setFrame fr p (some (.waitEvent h))) (waitEventWorld w p h) := by
   have hpl := lt_of_running hr
   have hnil := hp.nil_of_fr_none hfr
@@ -276,7 +279,12 @@ theorem PInv.cmd_waitEvent {w : World} (hp : PInv ex fr w) {p : Pid} {h : Nat} (
     obtain ⟨l, hl, hpl'⟩ := evWaitersOf_mem hm
     exact hnoe h (hp.e1 h l p hl hpl' hxp)
   refine { ei := by rw [hev]; exact hp.ei, ap := ?_, ae := ?_, ar := ?_, fb := ?_, w1 := ?_, wn := ?_, e1 := ?_, en := ?_,
-           op := ?_, oe := ?_, oh := ?_, up := by rw [hev]; exact hp.up, ue := by rw [hev]; exact hp.ue }
+           op := ?_, oe := ?_, oh := ?_, up := by rw [hev]; exact hp.up, ue := by rw [hev]; exact hp.ue,
+           es := fun h' l hm => by
+             rw [hew] at hm; rw [hev]
+             rcases List.mem_cons.1 hm with heq | hm
+             · cases heq; exact hs
+             · exact hp.es h' l (List.mem_filter.1 hm).1 }
   · intro x; rw [hpa]
     by_cases hx : x = p
     · subst hx; exact Or.inl hnil.1
